@@ -42,7 +42,8 @@ RowPart(d) ==
         \A k \in 0..(n + 1) :
            /\ Emit(Case(IF m = 1 THEN "ci_wilson" ELSE "ci_z_normal", n, k, ki, li, k = 0, k = 0 /\ ki = 1)
                    @@ [method |-> IF m = 1 THEN "wilson" ELSE "wald"])
-           /\ (m = 1 /\ li = 12 /\ k <= n /\ n > 0) => \A f \in DOMAIN FrontEnds :
+           \* (the empty sample too: its counts (0, 0) imply TooFewSuccesses whatever the front-end; the ratio form has no ratio there)
+           /\ (m = 1 /\ li = 12 /\ k <= n) => \A f \in DOMAIN FrontEnds : (n > 0 \/ f # 2) =>
                  Emit(Case(FrontEnds[f], n, k, ki, li, FALSE, FALSE) @@ [method |-> "wilson"])
   \* large populations: a sparse row in ascending k (2, 10, a drawn k and its mirror, n/2, n-10, n-2), so that
   \* mirror symmetry is checked there as well
